@@ -264,6 +264,8 @@ func (update *Update) compress() *compressedUpdate {
 
 func (update *Update) uncompress(c *compressedUpdate) {
 	update.SignedAccumulator = c.SignedAccumulator
+	// The receiver may have carried another message before: drop the product cached for its events.
+	update.product, update.productFrom = nil, 0
 	if c.E != nil {
 		update.Events = c.E.Events
 	} else {
@@ -416,6 +418,8 @@ func (el *EventList) compress() *compressedEventList {
 }
 
 func (el *EventList) uncompress(c *compressedEventList) {
+	// The receiver may have carried another list before: nothing of it may survive.
+	el.Events, el.product, el.validationErr = nil, nil, nil
 	if len(c.E) != 0 {
 		el.Events = make([]*Event, len(c.E))
 	}
